@@ -57,7 +57,12 @@ def setup_query(sel):
 
 
 class _TornFS(fsmodel.FS):
-    """torn = 4 stands for 'all but the last byte'."""
+    """torn = 4 stands for 'all but the last byte'. The root /s exists, like the temporary root of the real-OS replay,
+    so that operation indices are the same in the model and in the replay."""
+
+    def __init__(self):
+        fsmodel.FS.__init__(self)
+        self.nodes["/s"] = ("dir",)
 
     def do(self, op, *args):
         if op == "write" and self.crash_at is not None and self.count == self.crash_at and self.torn == 4:
